@@ -51,7 +51,7 @@ def _check_cvc5(solver, timeout_ms):
             pass
 
 
-def discharge(assumptions, goal, timeout_ms=10000, want_model=True):
+def discharge(assumptions, goal, timeout_ms=10000, want_model=True, quick_only=False):
     """-> (status, solver, secs, model or None, detail)
     status: 'discharged' (negation unsat), 'refuted' (negation sat), 'unknown'"""
     t0 = time.time()
@@ -63,6 +63,8 @@ def discharge(assumptions, goal, timeout_ms=10000, want_model=True):
     if r == z3.sat:
         return "refuted", "z3", time.time() - t0, s.model() if want_model else None, ""
     reason = s.reason_unknown()
+    if quick_only:
+        return "unknown", "z3", time.time() - t0, None, reason
     r2, s2 = _check_z3(assumptions, goal, timeout_ms, ematch_only=True)
     if r2 == z3.unsat:
         return "discharged", "z3-ematch", time.time() - t0, None, ""
